@@ -366,7 +366,7 @@ class RadiDict:
                 node[IDX] = node[IDX].replace(key0_to_del, '')
                 del node[OFFSET + kidx]
                 self._try_merge(node)
-            if not (node[DATA] or node[IDX]):
+            if not (node[DATA] or node[IDX] or node[HOOKS]):
                 key0_to_del = node[KEY][0]
             else:
                 break
